@@ -1,5 +1,6 @@
 import Driver.Common
 import Model.OAuth1Flow
+import Model.Fault
 namespace Driver.C12
 open Lean Driver Model.OAuth1Flow
 
@@ -41,19 +42,31 @@ def outJson (o : Out) : Json :=
 def optNat : Option Nat → Json
   | some n => Json.num n | none => Json.null
 
+def storeJson (s : Store) : Json :=
+  Json.mkObj [
+    ("temps", Json.arr (s.temps.map fun t => Json.arr #[Json.str s!"tmp{t.n}", Json.str t.client, optStr (t.verifier.map fun v => s!"ver{v}"), optNat t.user]).toArray),
+    ("creds", Json.arr (s.creds.map fun c => Json.arr #[Json.str s!"tok{c.n}", Json.str c.client, optNat c.user]).toArray)]
+
+def doneOf (j : Json) : Option (List String) :=
+  match j.getObjVal? "done" with
+  | .ok (.arr a) => some (a.toList.filterMap fun x => x.getStr?.toOption)
+  | _ => none
+
 def handle : Handler := fun j => do
   let cfg ← j.getObjVal? "cfg"
   let clients := (← getArr cfg "clients").toList.filterMap fun c => match getStrOpt c "id", getStrOpt c "secret" with
     | some a, some b => some (a, b) | _, _ => none
   let methods := (← getArr cfg "methods").toList.filterMap fun x => x.getStr?.toOption
   let s0 : Store := { clients := clients, temps := [], creds := [], nonces := [], now := ← getInt cfg "now", fresh := 0, methods := methods }
-  let ops ← (← getArr j "ops").toList.mapM parseOp
-  let (s, outs) := ops.foldl (fun (acc : Store × List Json) op =>
-    let (s', o) := step acc.1 op
-    (s', acc.2 ++ [outJson o])) (s0, [])
-  pure (Json.mkObj [("outs", Json.arr outs.toArray),
-    ("store", Json.mkObj [
-      ("temps", Json.arr (s.temps.map fun t => Json.arr #[Json.str s!"tmp{t.n}", Json.str t.client, optStr (t.verifier.map fun v => s!"ver{v}"), optNat t.user]).toArray),
-      ("creds", Json.arr (s.creds.map fun c => Json.arr #[Json.str s!"tok{c.n}", Json.str c.client, optNat c.user]).toArray)])])
+  let ops ← (← getArr j "ops").toList.mapM fun o => do pure ((← parseOp o), doneOf o)
+  let (s, outs) := ops.foldl (fun (acc : Store × List Json) (op, done) =>
+    match done with
+    | some d =>
+      let s' := stepFault acc.1 op (Model.Fault.progress d)
+      (s', acc.2 ++ [Json.mkObj [("fault", true), ("done", Json.arr (d.map Json.str).toArray), ("store", storeJson s')]])
+    | none =>
+      let (s', o) := step acc.1 op
+      (s', acc.2 ++ [outJson o])) (s0, [])
+  pure (Json.mkObj [("outs", Json.arr outs.toArray), ("store", storeJson s)])
 
 end Driver.C12
